@@ -296,6 +296,74 @@ func (e *Engine) BadResize(arg, cls string) {
 	}
 }
 
+// FailedGrow: a growth during which extending one chain file fails (the oldest
+// chain member's path is swapped for a directory for the duration of the call,
+// so that extending it fails after the newer members were extended). The
+// request must report the failure and change nothing: same size in memory and
+// on disk (a copy of the directory opens with the old size and reads like the
+// model), and a later growth works.
+func (e *Engine) FailedGrow(add int64) {
+	if e.Dead {
+		return
+	}
+	r := e.Srv.Replica()
+	if r == nil {
+		return
+	}
+	chain, err := r.Chain()
+	if err != nil || len(chain) == 0 {
+		return
+	}
+	victim := filepath.Join(e.Dir, chain[len(chain)-1])
+	aside := victim + ".aside"
+	if os.Rename(victim, aside) != nil {
+		return
+	}
+	if os.Mkdir(victim, 0700) != nil {
+		os.Rename(aside, victim)
+		return
+	}
+	op := e.rec(Op{K: "failedgrow", Size: e.M.Size + add, Note: "extending " + chain[len(chain)-1] + " fails"})
+	rerr := e.Srv.Resize(strconv.FormatInt(e.M.Size+add, 10))
+	os.Remove(victim)
+	if err := os.Rename(aside, victim); err != nil {
+		e.Dead = true
+		e.Res.Inconclusive = append(e.Res.Inconclusive, fmt.Sprintf("case %d: could not restore %s: %v", e.Case, victim, err))
+		return
+	}
+	e.Res.Count("failed_grows_probed", 1)
+	if rerr == nil {
+		e.Fail("C16", "resize:grow-reported-success-although-a-file-was-not-extended", fmt.Sprintf("Resize to %d returned success although %s could not be extended", e.M.Size+add, chain[len(chain)-1]))
+		return
+	}
+	op.Err = rerr.Error()
+	if _, info := e.Srv.Status(); info.Size != e.M.Size {
+		e.Fail("C16", "resize:failed-grow-changed-size", fmt.Sprintf("Resize to %d failed (%v) but the replica now reports %d bytes, was %d", e.M.Size+add, rerr, info.Size, e.M.Size))
+		return
+	}
+	got, img, err := e.openCopy()
+	if err != nil {
+		e.Fail("C16", "resize:failed-grow-left-directory-unreadable", fmt.Sprintf("after a failed growth to %d a copy of the directory cannot be opened and read: %v", e.M.Size+add, err))
+		return
+	}
+	if got != e.M.Size {
+		e.Fail("C16", "resize:failed-grow-changed-size", fmt.Sprintf("Resize to %d failed (%v) but a copy of the directory opens with %d bytes, was %d", e.M.Size+add, rerr, got, e.M.Size))
+		return
+	}
+	if d, n := Diff(img, 0, e.M.Live); d != "" {
+		e.Fail("C16", "resize:failed-grow-changed-data", fmt.Sprintf("after a failed growth %d sectors read differently from a copy of the directory; first: %s", n, d))
+		return
+	}
+	// the retry must work (Resize compares the new range and the persisted size itself)
+	if e.R.Chance(60) {
+		e.Resize(e.M.Size+add, "bytes")
+		if !e.Dead {
+			l := int64(e.R.Range(1, int(add/Sector))) * Sector
+			e.Write(e.M.Size-l, l)
+		}
+	}
+}
+
 func RunResizeCase(e *Engine, p Profile) {
 	r := e.R
 	blocks := r.Range(16, 96)
@@ -337,6 +405,9 @@ func RunResizeCase(e *Engine, p Profile) {
 				e.BadResize("", "empty")
 			case 4:
 				e.BadResize("0", "zero")
+			}
+			if r.Chance(35) {
+				e.FailedGrow(int64(r.Range(1, 24)) * Block)
 			}
 			e.Check(false)
 		case 3:
